@@ -1,7 +1,7 @@
 (* Properties/C20.v -- router integration points dnsmasq at the proxy and undoes it on stop.
    Statements are about what the running dnsmasq loaded at its last restart
    (view f (loaded e)), for every firmware, every setting, every pre-existing state. *)
-From NX Require Import Bytes Discovery ResolvConf Router RouterFacts.
+From NX Require Import Bytes Discovery ResolvConf Router RouterFacts RouterOpenwrt.
 
 (* ---- after Configure + Setup the running dnsmasq forwards to exactly the proxy's listen
    address, or has its DNS off port 53 when the proxy takes :53; add-mac iff reporting ---- *)
@@ -50,6 +50,16 @@ Theorem C20_restore_openwrt : forall c e r1 e1 ls ok1 r2 e2 ok2 e3,
   c20_not_pointing (view Openwrt (loaded e3)) = true.
 Proof. exact ow_restore_not_pointing. Qed.
 Print Assumptions C20_restore_openwrt.
+
+(* a whole start/stop cycle on OpenWrt: the dnsmasq port, the forwarders and the DHCP options are
+   back as dnsmasq reads them (Hopt: the option list as uci prints it has no surrounding white space) *)
+Theorem C20_cycle_openwrt : forall c e r1 e1 ls r2 e2 e3,
+  conf e = None -> uci_s e = uci_c e ->
+  (forall l, sget k_dhcpopt (uci_c e) = Some l -> trim_space (join_sp l) = join_sp l) ->
+  configure (new Openwrt e) c e = (r1, e1, ls, true) -> setup r1 e1 = (r2, e2, true) -> restore r2 e2 = (e3, true) ->
+  c20_restored (view Openwrt (loaded e3)) (view Openwrt (current e)) = true.
+Proof. exact ow_cycle_restores. Qed.
+Print Assumptions C20_cycle_openwrt.
 
 Theorem C20_restore_ddwrt : forall c e r1 e1 ls ok1 r2 e2 ok2 e3 ok3,
   configure (new Ddwrt e) c e = (r1, e1, ls, ok1) -> setup r1 e1 = (r2, e2, ok2) -> restore r2 e2 = (e3, ok3) ->
